@@ -10,9 +10,9 @@
     bincode satisfy this is trusted, and exercised on every run by the harness.
 -/
 import Chrono.Model.SerdeTs
-import Chrono.Spec.InstantSpec
+import Chrono.Spec.TimestampSpec
 namespace Chrono.Spec.Serde
-open Chrono.M Chrono.M.Serde Chrono.Spec
+open Chrono.M Chrono.M.Serde Chrono.Spec Chrono.Spec.Ts
 
 /-- nanoseconds per unit of a timestamp module -/
 def nsPer : TsUnit → Int
@@ -31,15 +31,17 @@ def perSec : TsUnit → Int
 /-- the exact integer timestamp of a value in unit `u` (floor: negative fractional counts round toward −∞) -/
 def tsOf (u : TsUnit) (dt : NaiveDT) : Int := instNs dt / nsPer u
 
-/-- the value with its sub-second part cut down to the module's precision -/
-def truncTo (u : TsUnit) (dt : NaiveDT) : NaiveDT :=
-  ⟨dt.date, ⟨dt.time.secs, dt.time.frac / nsPer u * nsPer u⟩⟩
+/-- what a module of unit `u` must write for `dt`: the exact integer; when it does not fit `i64` (possible
+for the nanosecond modules only: years before 1677 / after 2262) the module must refuse with an error -/
+def mustWrite (u : TsUnit) (dt : NaiveDT) : SR Int :=
+  if isI64 (tsOf u dt) then .ok (tsOf u dt) else .err
 
-/-- machine domains -/
-def isI64 (x : Int) : Prop := -9223372036854775808 ≤ x ∧ x ≤ 9223372036854775807
+/-- the value with its sub-second part cut down to the module's precision -/
+def truncTo (u : TsUnit) (dt : NaiveDT) : NaiveDT := truncFrac dt (nsPer u)
+
+/-- machine domains (`isI64`, `isU32` are in Spec/TimestampSpec.lean) -/
 def isU64 (x : Int) : Prop := 0 ≤ x ∧ x ≤ 18446744073709551615
 def isI32 (x : Int) : Prop := -2147483648 ≤ x ∧ x ≤ 2147483647
-instance (x : Int) : Decidable (isI64 x) := by unfold isI64; exact inferInstance
 instance (x : Int) : Decidable (isU64 x) := by unfold isU64; exact inferInstance
 instance (x : Int) : Decidable (isI32 x) := by unfold isI32; exact inferInstance
 
@@ -94,5 +96,19 @@ def strDeserialize {α} (F : StrFormat) (parse : List Nat → Option α) (e : F.
   match F.getStr e with
   | some s => ok_or (parse s)
   | none => .err
+
+/-- a value through one of the eight plain modules and a format: `serialize`, encode, decode, `deserialize` -/
+def roundTrip (F : IntFormat) (tg : Target) (u : TsUnit) (dt : NaiveDT) : Res (SR NaiveDT) :=
+  match serialize tg u dt with
+  | .ok (.ok o) => deserialize tg u (F.getInt (F.put o))
+  | .ok .err => .ok .err
+  | .panic => .panic
+
+/-- the same through one of the eight `_option` modules -/
+def roundTripOpt (F : IntFormat) (tg : Target) (u : TsUnit) (v : Option NaiveDT) : Res (SR (Option NaiveDT)) :=
+  match serialize_option tg u v with
+  | .ok (.ok o) => deserialize_option tg u (F.getOpt (F.put o))
+  | .ok .err => .ok .err
+  | .panic => .panic
 
 end Chrono.Spec.Serde
